@@ -165,46 +165,62 @@ Fixpoint upd {A} (l : list A) (i : nat) (x : A) : list A :=
 Definition set_pc (tm : timer) (p : pc) : timer :=
   mkTimer (k_kind tm) (k_dur tm) (k_born tm) (k_t0 tm) p (k_sent tm).
 
-(* the task's effect once its sleep / tick with deadline D has completed *)
-Definition fire (s : state) (i : nat) (tm : timer) (D : N) : state :=
-  let t := now s in
-  match k_kind tm with
-  | KAfter =>
-      if accepts (g_status (tgt s))
-      then mkState t (tgt_enqueue (MTick i 1) (tgt s))
-             (upd (timers s) i (mkTimer KAfter (k_dur tm) (k_born tm) (k_t0 tm) (PDone ROk) (k_sent tm + 1)))
-             (effs s ++ [mkEff i (ESent 1) t])
-      else mkState t (tgt s) (upd (timers s) i (set_pc tm (PDone RErr))) (effs s ++ [mkEff i ESendFail t])
-  | KInterval =>
-      if accepts (g_status (tgt s))
-      then mkState t (tgt_enqueue (MTick i (k_sent tm + 1)) (tgt s))
-             (upd (timers s) i (mkTimer KInterval (k_dur tm) (k_born tm) (k_t0 tm) (PCheck (D + k_dur tm)) (k_sent tm + 1)))
-             (effs s ++ [mkEff i (ESent (k_sent tm + 1)) t])
-      else mkState t (tgt s) (upd (timers s) i (set_pc tm (PDone RUnit))) (effs s ++ [mkEff i ESendFail t])
-  | KExit =>
-      mkState t (tgt_stop (RExitAfter (k_dur tm / ms)) (Some i) (tgt s))
-        (upd (timers s) i (set_pc tm (PDone RUnit))) (effs s ++ [mkEff i EStop t])
-  | KKill =>
-      mkState t (tgt_kill (Some i) (tgt s))
-        (upd (timers s) i (set_pc tm (PDone RUnit))) (effs s ++ [mkEff i EKill t])
+(* One micro-step of a timer task, split into its three components: the task's own next
+   record, the effect (if any) it has on the target, and that effect applied to the target. *)
+Definition poll_tm (t : N) (st : status) (tm : timer) : timer :=
+  match k_pc tm with
+  | PInit =>
+      mkTimer (k_kind tm) (k_dur tm) (k_born tm) t
+              (match k_kind tm with KInterval => PFirst t | _ => PWait (t + k_dur tm) end) (k_sent tm)
+  | PFirst D => if elapsed t D then set_pc tm (PCheck (D + k_dur tm)) else tm
+  | PCheck D => set_pc tm (if is_active st then PWait D else PDone RUnit)
+  | PWait D =>
+      if elapsed t D then
+        match k_kind tm with
+        | KAfter =>
+            if accepts st
+            then mkTimer (k_kind tm) (k_dur tm) (k_born tm) (k_t0 tm) (PDone ROk) (k_sent tm + 1)
+            else set_pc tm (PDone RErr)
+        | KInterval =>
+            if accepts st
+            then mkTimer (k_kind tm) (k_dur tm) (k_born tm) (k_t0 tm) (PCheck (D + k_dur tm)) (k_sent tm + 1)
+            else set_pc tm (PDone RUnit)
+        | KExit => set_pc tm (PDone RUnit)
+        | KKill => set_pc tm (PDone RUnit)
+        end
+      else tm
+  | PDone _ => tm
+  | PAborted => tm
+  end.
+
+Definition poll_eff (t : N) (st : status) (tm : timer) : option ewhat :=
+  match k_pc tm with
+  | PWait D =>
+      if elapsed t D then
+        Some (match k_kind tm with
+              | KAfter => if accepts st then ESent (k_sent tm + 1) else ESendFail
+              | KInterval => if accepts st then ESent (k_sent tm + 1) else ESendFail
+              | KExit => EStop
+              | KKill => EKill
+              end)
+      else None
+  | _ => None
+  end.
+
+Definition apply_eff (i : nat) (tm : timer) (w : ewhat) (g : target) : target :=
+  match w with
+  | ESent k => tgt_enqueue (MTick i k) g
+  | ESendFail => g
+  | EStop => tgt_stop (RExitAfter (k_dur tm / ms)) (Some i) g   (* "Exit after {ms}ms", Duration::as_millis *)
+  | EKill => tgt_kill (Some i) g
   end.
 
 Definition poll_timer (s : state) (i : nat) (tm : timer) : state :=
-  match k_pc tm with
-  | PInit =>
-      let p := match k_kind tm with KInterval => PFirst (now s) | _ => PWait (now s + k_dur tm) end in
-      mkState (now s) (tgt s)
-        (upd (timers s) i (mkTimer (k_kind tm) (k_dur tm) (k_born tm) (now s) p (k_sent tm))) (effs s)
-  | PFirst D =>
-      if elapsed (now s) D
-      then mkState (now s) (tgt s) (upd (timers s) i (set_pc tm (PCheck (D + k_dur tm)))) (effs s)
-      else s
-  | PCheck D =>
-      mkState (now s) (tgt s)
-        (upd (timers s) i (set_pc tm (if is_active (g_status (tgt s)) then PWait D else PDone RUnit))) (effs s)
-  | PWait D => if elapsed (now s) D then fire s i tm D else s
-  | PDone _ => s
-  | PAborted => s
+  let st := g_status (tgt s) in
+  match poll_eff (now s) st tm with
+  | Some w => mkState (now s) (apply_eff i tm w (tgt s)) (upd (timers s) i (poll_tm (now s) st tm))
+                      (effs s ++ [mkEff i w (now s)])
+  | None => mkState (now s) (tgt s) (upd (timers s) i (poll_tm (now s) st tm)) (effs s)
   end.
 
 Definition finished (p : pc) : bool :=
